@@ -540,6 +540,10 @@ func termsMatch(a, b string, ta, tb types.Type) bool {
 		if open == "⟦" && wa == na && wb == nb {
 			continue
 		}
+		// the component type of a complex label (float32 for complex64, float64 for complex128)
+		if open == "⟦" && componentOf(na) != "" && wa == componentOf(na) && wb == componentOf(nb) {
+			continue
+		}
 		if open == "⟪" && wa == ca && wb == cb {
 			continue
 		}
@@ -555,4 +559,14 @@ func showTerm(a string, ta types.Type) string {
 	}
 	a = strings.NewReplacer("⟦", "", "⟧", "", "⟪", "", "⟫", "").Replace(a)
 	return a
+}
+
+func componentOf(name string) string {
+	switch name {
+	case "complex64":
+		return "float32"
+	case "complex128":
+		return "float64"
+	}
+	return ""
 }
